@@ -43,7 +43,7 @@ func isBufferingCtor(i ssa.Instruction) bool {
 	if f == nil || f.Pkg == nil || f.Pkg.Pkg.Path() != "bufio" {
 		return false
 	}
-	return strings.HasPrefix(f.Name(), "NewReader") || f.Name() == "NewReadWriter" || f.Name() == "NewScanner"
+	return strings.HasPrefix(cn(f), "NewReader") || cn(f) == "NewReadWriter" || cn(f) == "NewScanner"
 }
 
 func c07r1(c *core.Ctx) {
@@ -160,7 +160,7 @@ func c07r2(c *core.Ctx) {
 		if call.Call.IsInvoke() && call.Call.Method.Name() == "Len" {
 			return of(call.Call.Value)
 		}
-		if f := call.Call.StaticCallee(); f != nil && f.Name() == "Len" && len(call.Call.Args) == 1 {
+		if f := call.Call.StaticCallee(); f != nil && cn(f) == "Len" && len(call.Call.Args) == 1 {
 			return of(call.Call.Args[0])
 		}
 		return false
